@@ -19,6 +19,9 @@ annotations stripped) must be the model's tree.  `Properties/C09.lean` proves to
 modelled stages and that no `fault` result is reachable in them.
 """
 import json
+import subprocess
+import tempfile
+import concurrent.futures as cf
 import os
 import re
 import time
@@ -616,6 +619,47 @@ def run(tier, seed, replay=None):
                 if o2 != obs[a][i] and not failing(obs[a][i]) and not failing(o2) and not any(b[0] == i for b in bad):
                     bad.append((i, a, "observation depends on indeterminate memory (uninitialised value): " + first_diff_text(obs[a][i], o2)))
 
+    # the EXECUTABLE (xcmp.cpp main with its catch sites, built by the repository's CMake) on the hand-written and seed
+    # sources: status 0 with the binary written, or status 1 with a diagnostic and nothing written - no signal, abort or hang
+    exe_n = 0
+    exe_classes = Counter()
+    if not any(k == "replay-prefix" for k in kinds) or True:
+        import c14
+        tools = c14.build_tools()
+        exe = os.path.join(tools, "xcmp")
+        workroot = os.path.join(C.BUILD, "work")
+        os.makedirs(workroot, exist_ok=True)
+        sub_exe = [i for i, k in enumerate(kinds) if k in ("odd", "seed", "replay")][:600]
+
+        def run_exe(i):
+            d = tempfile.mkdtemp(prefix="c09x-", dir=workroot)
+            try:
+                with open(os.path.join(d, "p.x"), "wb") as f:
+                    f.write(sources[i].encode("latin1", "replace"))
+                try:
+                    pr = subprocess.run([exe, "p.x", "-o", "o.bin"], cwd=d, stdin=subprocess.DEVNULL, stdout=subprocess.PIPE,
+                                        stderr=subprocess.PIPE, timeout=30)
+                    rc, err = pr.returncode, (pr.stderr + pr.stdout)[:600].decode("latin1")
+                except subprocess.TimeoutExpired:
+                    rc, err = "timeout", ""
+                return rc, err, os.path.exists(os.path.join(d, "o.bin"))
+            finally:
+                import shutil
+                shutil.rmtree(d, ignore_errors=True)
+
+        with cf.ThreadPoolExecutor(max_workers=C.NPROC) as ex:
+            res = list(ex.map(run_exe, sub_exe))
+        exe_n = len(sub_exe)
+        for i, (rc, err, left) in zip(sub_exe, res):
+            exe_classes[str(rc) + ("+file" if left else "")] += 1
+            if (rc == 0 and left) or (rc == 1 and not left and err.strip()):
+                continue
+            why = ("executable: hang" if rc == "timeout" else "executable: killed by signal %d" % -rc if isinstance(rc, int) and rc < 0 else
+                   "executable: diagnostic with an output file left behind" if rc == 1 and left else
+                   "executable: unexpected exit status %s (%s)" % (rc, err[:120].replace("\n", " ")))
+            if not any(b[0] == i for b in bad):
+                bad.append((i, "exe", why))
+
     # model tie: tokens, diagnostics of the front end, trees
     tie_bad = []
     tie_checked = 0
@@ -687,6 +731,11 @@ def run(tier, seed, replay=None):
         seen_why[key] += 1
         if seen_why[key] > 1 or reported >= 6:
             continue
+        if a == "exe":
+            rep.violation(f"input{reported}", {"property": PID, "seed": seed, "action": "xcmp executable", "source_hex": sources[i].encode("latin1", "replace").hex(),
+                                               "source": sources[i][:2000], "why": why, "kind": kinds[i], "rerun": "./check C09 --replay <this file>"})
+            reported += 1
+            continue
         small = shrink_text(h, sources[i], a)
         o = observe(h, [small], a)[0]
         rep.violation(f"input{reported}", {"property": PID, "seed": seed, "action": a, "source_hex": small.encode("latin1", "replace").hex(),
@@ -716,7 +765,7 @@ def run(tier, seed, replay=None):
                 "the actions bin/asm/tokens/tree; non-trivial = longer than 3 bytes; distinct by content",
         "samples": [sources[len(ODD) + 3][:200] if len(sources) > len(ODD) + 3 else sources[0], sources[-1][:300], sources[-2][:300]],
         "outcome_classes": dict(cls.most_common(60)), "failing_inputs": len(bad), "failure_classes": dict(seen_why),
-        "uninitialised_value_probe_sources": nprobe, "model_tie_checked": tie_checked, "model_vs_impl_mismatches": len(tie_bad),
+        "uninitialised_value_probe_sources": nprobe, "executable_runs": exe_n, "executable_outcomes": dict(exe_classes), "model_tie_checked": tie_checked, "model_vs_impl_mismatches": len(tie_bad),
         "tie_mismatch_kinds": dict(Counter(t[1] for t in tie_bad)), "trees_identical": trees_same, "trees_skipped": trees_skipped,
         "pipeline_model_outcomes": dict(pipe), "pipeline_image_bytes_identical": pipe_bytes,
         "traces_validated_against_impl": tie_checked - len(tie_bad), "lean": info, "wall_run_s": round(time.time() - t0, 1),
